@@ -9,8 +9,12 @@ eval line : `E|F <p0,p1,…|-> <t,g0,g1;…|-> <limit|-> <W>`   (values: integer
             fills `$var[col]` null-safely, E = plain SQL equality)
    ->  rows returned by `evalSel`, `t,g0,g1;…`  (or `-` when empty)
 
+eval line with a second table: `ES|FS <p0,…|-> <rows|-> <rows of shops|-> <limit|-> <W>`  (sub-queries select from `shops`)
+
 W ::= (i t) | (i g <n>) | (i x) | (c <int>) | L | N | (v <n>) | (T <int>*) | (O <0|1>)
     | (b <op> W W) | (w W W W) | (u W)        op ::= and gt ge eq lt le in isnot bad<k>
+    | (S <k> W)            sub-select, `W` = its WHERE (`N`: none)
+    | (K <0|1> <k> W W)    Tuple / TypeCast / Case / argument list with conditions inside: first child, rest (`N`: end)
 -/
 open MindsVerif.TS
 
@@ -31,6 +35,8 @@ partial def showW : W Int → String
   | .bin op l r => s!"(b {showOp op} {showW l} {showW r})"
   | .btw x a b => s!"(w {showW x} {showW a} {showW b})"
   | .un x => s!"(u {showW x})"
+  | .sub k w => s!"(S {k} {showW w})"
+  | .cont f k x rest => s!"(K {if f then 1 else 0} {k} {showW x} {showW rest})"
 
 def readOp (s : String) : Option Op :=
   match s with
@@ -66,6 +72,15 @@ partial def readW : List String → Option (W Int × List String)
   | "(" :: "u" :: rest => do
     let (x, rest) ← readW rest
     match rest with | ")" :: rest => some (.un x, rest) | _ => none
+  | "(" :: "S" :: k :: rest => do
+    let k ← k.toNat?
+    let (w, rest) ← readW rest
+    match rest with | ")" :: rest => some (.sub k w, rest) | _ => none
+  | "(" :: "K" :: f :: k :: rest => do
+    let k ← k.toNat?
+    let (x, rest) ← readW rest
+    let (r, rest) ← readW rest
+    match rest with | ")" :: rest => some (.cont (f == "1") k x r, rest) | _ => none
   | _ => none
 
 def readOptW : List String → Option (Option (W Int))
@@ -102,17 +117,23 @@ def showRow (r : Row Int) : String := ",".intercalate ((r.t :: r.g).map showCell
 def tokens (s : String) : List String :=
   (((s.replace "(" " ( ").replace ")" " ) ").splitOn " ").filter (· ≠ "")
 
+def readRows (rows : String) : Option (List (Row Int)) :=
+  if rows == "-" then some [] else (rows.splitOn ";").mapM readRow
+
 def handleE : List String → String
-  | cmd :: p :: rows :: lim :: rest =>
-    if cmd != "E" && cmd != "F" then "bad-line" else
-    let p? : Option (List (Option Int)) := if p == "-" then some [] else (p.splitOn ",").mapM readCell
-    let rows? : Option (List (Row Int)) := if rows == "-" then some [] else (rows.splitOn ";").mapM readRow
-    let lim? : Option (Option Nat) := if lim == "-" then some none else lim.toNat?.map some
-    match p?, rows?, lim?, readW rest with
-    | some p, some T, some lim, some (w, []) =>
-      let out := evalSel ⟨p, cmd == "F"⟩ T ⟨w, lim⟩
-      if out.isEmpty then "-" else ";".intercalate (out.map showRow)
-    | _, _, _, _ => "bad-line"
+  | cmd :: p :: rows :: rest0 =>
+    if cmd != "E" && cmd != "F" && cmd != "ES" && cmd != "FS" then "bad-line" else
+    let two := cmd == "ES" || cmd == "FS"
+    match (if two then rest0 else "-" :: rest0) with
+    | shops :: lim :: rest =>
+      let p? : Option (List (Option Int)) := if p == "-" then some [] else (p.splitOn ",").mapM readCell
+      let lim? : Option (Option Nat) := if lim == "-" then some none else lim.toNat?.map some
+      match p?, readRows rows, readRows shops, lim?, readW rest with
+      | some p, some T, some S, some lim, some (w, []) =>
+        let out := evalSel ⟨p, cmd == "F" || cmd == "FS", S⟩ T ⟨w, lim⟩
+        if out.isEmpty then "-" else ";".intercalate (out.map showRow)
+      | _, _, _, _, _ => "bad-line"
+    | _ => "bad-line"
   | _ => "bad-line"
 
 /-- `D <nG> <window> <inner o g h f> <inner limit|-> <outer limit|-> <inner W|-> | <outer W|->` : the dbt form -/
